@@ -7,6 +7,7 @@ from typing import TYPE_CHECKING, cast
 
 import numpy as np
 
+from physt._construction import widen_weights
 from physt.binnings import BinningBase, as_binning
 from physt.config import config
 from physt.statistics import INVALID_STATISTICS
@@ -1027,7 +1028,7 @@ class HistogramBase(abc.ABC):
                 self._missed = missed.astype(self._missed_dtype(self.dtype))
             self._stats = INVALID_STATISTICS
             return self
-        array = np.asarray(other)
+        array = widen_weights(np.asarray(other))  # (Unsigned types cannot be negated)
         return self.__iadd__(array * (-1))
 
     def __mul__(self, other: Any):
@@ -1063,10 +1064,12 @@ class HistogramBase(abc.ABC):
             if stats is not None:
                 self._stats = stats
         elif config.free_arithmetics:  # Treat other as array-like
-            array = np.asarray(other)
+            array = widen_weights(np.asarray(other))  # (Squared below)
             self._coerce_dtype(array.dtype)
-            self.frequencies = self.frequencies * array
-            self.errors2 = self.errors2 * array**2
+            frequencies = self.frequencies * array
+            errors2 = self.errors2 * array**2
+            self.frequencies = frequencies
+            self.errors2 = errors2
             if hasattr(self, "_stats"):
                 self._stats = INVALID_STATISTICS
             self._missed = self._missed * np.nan
@@ -1108,9 +1111,11 @@ class HistogramBase(abc.ABC):
                 self._stats = stats
         elif config.free_arithmetics:  # Treat other as array-like
             self._coerce_dtype(np.float64)
-            array = np.asarray(other)
-            self.frequencies = self.frequencies / array
-            self.errors2 = self.errors2 / array**2
+            array = widen_weights(np.asarray(other))  # (Squared below)
+            frequencies = self.frequencies / array
+            errors2 = self.errors2 / array**2
+            self.frequencies = frequencies
+            self.errors2 = errors2
             if hasattr(self, "_stats"):
                 self._stats = INVALID_STATISTICS
             self._missed /= np.nan
